@@ -15,7 +15,7 @@ FOCUS_SETS = [
     ['word', 'footnote', 'caption', 'footcite', 'textcolor', 'unkarg', 'unkenv', 'figure', 'tabular', 'usermac2'],
     ['word', 'gls', 'glsentry', 'cref', 'usermacopt', 'usermacoptonly', 'latexname', 'textbackslash', 'ref', 'cite', 'theorem', 'proof', 'enumerate'],
     ['word', 'tikz', 'lstlisting', 'removed_ext', 'skip', 'comment', 'minipage', 'par', 'newline', 'quad', 'hspace'],
-    ['word', 'atom', 'accent', 'group', 'emph', 'unkarg2', 'href', 'texorpdf', 'framebox', 'ltadd', 'ltalter'],
+    ['word', 'atom', 'accent', 'group', 'emph', 'unkarg2', 'href', 'url', 'texorpdf', 'framebox', 'ltadd', 'ltalter'],
 ]
 
 
